@@ -56,6 +56,12 @@ func (in *Interp) eval(e ast.Expr, st *State) []evalRes {
 				return []evalRes{{st, Val{K: kTop, S: "stack:" + f}}}
 			}
 			if in.tracked[f] {
+				if in.trackReads && !st.assigned[f] {
+					if st.readFirst == nil {
+						st.readFirst = map[string]bool{}
+					}
+					st.readFirst[f] = true
+				}
 				if v, ok := st.fields[f]; ok {
 					return []evalRes{{st, v}}
 				}
@@ -683,6 +689,14 @@ func (in *Interp) applyCall(x *ast.CallExpr, callee *types.Func, recvExpr ast.Ex
 	}
 	if callee == nil {
 		// call through a function value (callback): assumed not to touch the machine
+		if in.selfEvents {
+			for _, a := range x.Args {
+				if in.isBuildElem(a, st) {
+					st.events = append(st.events, Event{Name: "OUT", Arg: "call"})
+					break
+				}
+			}
+		}
 		return []evalRes{{st, vTop}}
 	}
 	if h := in.hook; h != nil && callee == h.m.workFn {
